@@ -40,9 +40,9 @@ Proof. destruct g; reflexivity. Qed.
 Ltac fin := intros H; inversion H; subst; try reflexivity; try discriminate.
 
 (** getType marks a type non-null exactly when the Go type cannot hold nil. *)
-Lemma get_type_nullable force g t : get_type force g = Some t -> is_nonnull t = negb (admits_nil g).
+Lemma get_type_nullable force g t : get_type force g = Some t -> is_nonnull t = negb (can_be_nil g).
 Proof.
-  rewrite get_type_unfold. unfold admits_nil.
+  rewrite get_type_unfold. unfold can_be_nil.
   destruct g as [[en sc tx] e|[en sc tx] e|[en sc tx] n|[en sc tx]]; cbn [facts g_enum g_scalar g_text is_ptr andb negb];
     (destruct en as [m|]; [fin|]); (destruct sc as [m|]; [fin|]).
   - destruct (g_scalar (facts e)) as [m|]; [fin|]. destruct tx; [fin|].
@@ -90,8 +90,8 @@ Lemma field_type_nullable k g t :
   field_type k g = Some t ->
   is_nonnull t =
   match k with
-  | KStructField => negb (admits_nil g)
-  | KFunc nn _ => nn || negb (admits_nil g)
+  | KStructField => negb (can_be_nil g)
+  | KFunc nn _ => nn || negb (can_be_nil g)
   | KBatch nn _ => nn || is_list t
   end.
 Proof.
